@@ -1,4 +1,6 @@
 import RosuModel.Model.Convert
+import RosuModel.Model.Builder
+import RosuModel.Gen.TryFrom
 
 /-!
 # C07 — mode dispatch and map conversion are mutually consistent
@@ -53,6 +55,52 @@ theorem entry_preludes_agree :
 /-- …and that conversion targets the mode itself. -/
 theorem entry_preludes_convert_to_own_mode :
     ∀ e ∈ entryPreludes, e.2.2.head? = some ("convert_ref:" ++ e.1) := by decide
+
+
+/-! ## `Performance::try_mode` / `mode_or_ignore`: what the conversion of a builder carries over -/
+
+open Rosu.Builder in
+/-- The field of a mode's builder that the generic `Performance` setter `setter` writes (none if
+the setter is documented as irrelevant for that mode). -/
+def targetFieldOf (mode setter : String) : Option String :=
+  match lookupArm setter mode with
+  | some (.forward m) =>
+    match lookupEffect mode m with
+    | some (.field f) => some f
+    | some .acc => some "acc"
+    | some .priority => some "hitresult_priority"
+    | _ => none
+  | _ => none
+
+/-- Fields of the osu! builder and the generic setter that writes each. -/
+def osuFieldSetter : List (String × String) :=
+  [("acc", "accuracy"), ("combo", "combo"), ("large_tick_hits", "large_tick_hits"),
+   ("small_tick_hits", "small_tick_hits"), ("slider_end_hits", "slider_end_hits"), ("n300", "n300"),
+   ("n100", "n100"), ("n50", "n50"), ("misses", "misses"), ("hitresult_priority", "hitresult_priority")]
+
+/-- `TryFrom<OsuPerformance>` for `mode` carries a field over exactly when the generic setter for
+it is meaningful in `mode` — to the very field that setter would write — and drops it exactly
+when the setter is a documented no-op; the `Difficulty` is always carried over; every other
+field of the new builder starts unset. -/
+def tryFromConsistent (mode : String) : Bool :=
+  match tryFromOsu.lookup mode with
+  | some (taken, built) =>
+    (osuFieldSetter.all fun fs =>
+      match targetFieldOf mode fs.2 with
+      | some g => taken.lookup fs.1 == some fs.1 && built.lookup g == some fs.1
+      | none => taken.lookup fs.1 == some "_") &&
+    taken.lookup "difficulty" == some "difficulty" && built.lookup "difficulty" == some "difficulty" &&
+    built.lookup "map_or_attrs" == some "MapOrAttrs::Map(map)" &&
+    (built.all fun kv =>
+      kv.2 == "None" || kv.1 == "map_or_attrs" || kv.1 == "difficulty" ||
+        (osuFieldSetter.any fun fs => targetFieldOf mode fs.2 == some kv.1 && kv.2 == fs.1))
+  | none => false
+
+/-- Hence setting score fields on an osu! `Performance` and then converting it with
+`try_mode`/`mode_or_ignore` configures the same builder as converting first and using the same
+generic setters afterwards. -/
+theorem tryfrom_consistent_with_setters :
+    ∀ mode ∈ ["Taiko", "Catch", "Mania"], tryFromConsistent mode = true := by decide
 
 /-! ## The three conversion entry points -/
 
